@@ -159,6 +159,9 @@ func genEvents(r *Rng, n int, target uint64, tid string) []gev {
 	if r.Intn(3) == 0 && target > 3 {
 		base = target - uint64(r.Intn(4))
 	}
+	if r.Intn(12) == 0 {
+		base = (uint64(1) << 63) + uint64(r.Intn(100)) // heights are uint64: also far above a small target
+	}
 	num := base
 	steps := []int{1, 1, 1, 2, 16, 16, 17, 32}
 	ids := []string{"a", "b", "c", "d", "e", "f", tid, tid, ""}
@@ -175,13 +178,17 @@ func genEvents(r *Rng, n int, target uint64, tid string) []gev {
 		switch r.Intn(6) {
 		case 0: // same number again (other step / fork)
 		case 1:
-			num += uint64(1 + r.Intn(3))
+			if num < ^uint64(0)-8 {
+				num += uint64(1 + r.Intn(3))
+			}
 		case 2:
 			if num > 0 && r.Bool() {
 				num--
 			}
 		default:
-			num++
+			if num < ^uint64(0)-8 {
+				num++
+			}
 		}
 	}
 	return evs
@@ -191,6 +198,10 @@ func suiteGates(o *Out, r *Rng, n int, tier string) {
 	for i := 0; i < n; i++ {
 		nev := 1 + r.Intn(14)
 		target := uint64(r.Intn(12))
+		if r.Intn(10) == 0 { // a target no block is near: "never" sentinels and heights in the upper half of uint64
+			target = []uint64{^uint64(0), (uint64(1) << 63) + 100, uint64(1) << 63, (uint64(1) << 63) - 1, ^uint64(0) - 3}[r.Intn(5)]
+			o.Stat("gates.target_in_the_upper_half_of_uint64", 1)
+		}
 		tids := []string{"a1", "b0", "c2", "", zeros64, "zz", "d1"}
 		tid := tids[r.Intn(len(tids))]
 		incl := fmt.Sprint(r.Intn(2))
